@@ -231,6 +231,25 @@ let dispatch (cmd : string) (t : tree) : tree =
             b b0 0 + b b1 1 + b b2 2 + b b3 3 + b b4 4 + b b5 5 + b b6 6 + b b7 7 in
       let ok = (match Codec.parse_tuple txt with Some l' -> l' = l | None -> false) in
       L [w_list (fun c -> w_int (code c)) txt; w_bool ok]
+  | "codec_tree", [items] ->
+      (* items: [alpha, beta, value] in insertion order; returns [the nested text structure of MiscTree.serialize
+         ([key codes, [[inner key codes, value]...]]...), 1 if loading it gives the items back (grouped by alpha), the list of
+         str((alpha, beta)) of IndexSet.serialize, 1 if loading that list gives the pairs back] *)
+      let code (c : Ascii.ascii) = match c with
+        | Ascii.Ascii (b0, b1, b2, b3, b4, b5, b6, b7) ->
+            let b x k = if x then (1 lsl k) else 0 in
+            b b0 0 + b b1 1 + b b2 2 + b b3 3 + b b4 4 + b b5 5 + b b6 6 + b b7 7 in
+      let wtxt t = w_list (fun c -> w_int (code c)) t in
+      let its = r_list (fun t -> match as_list t with [a; b; v] -> ((r_list r_nat a, r_list r_nat b), r_z v) | _ -> failwith "item") items in
+      let nested = Codec.save_tree its in
+      let back = (match Codec.load_tree nested with
+                  | Some l -> SL.sort compare l = SL.sort compare its
+                  | None -> false) in
+      let pairs = SL.map fst its in
+      let texts = Codec.save_index_set pairs in
+      let back2 = (match Codec.load_index_set texts with Some l -> l = pairs | None -> false) in
+      L [w_list (fun (k, inner) -> L [wtxt k; w_list (fun (kb, v) -> L [wtxt kb; w_z v]) inner]) nested; w_bool back;
+         w_list wtxt texts; w_bool back2]
   | "fault_rebase", [sizes; errs] ->
       let (groups, _) = Fault.rebase (r_list r_nat sizes) Datatypes.O (r_list r_nat errs) in
       w_list (w_list w_nat) groups
